@@ -91,5 +91,11 @@ def rule_clauses(name, pod_table, ghost, ts, args, res, spec_name=None):
             from pyvc.values import Unsupported
             raise Unsupported("the contract of %s expects %d arguments, the definition has %d (redefined rule?)"
                               % (name, len(inspect.signature(sp).parameters) - 3, len(args)))
-        out.extend(sp(Env(pod_table, ghost), ts, *(list(args) + [res])))
+        try:
+            out.extend(sp(Env(pod_table, ghost), ts, *(list(args) + [res])))
+        except (AttributeError, KeyError, TypeError) as e:
+            # the contract could not even be evaluated on this result (None or another kind of value than
+            # the contract speaks about): the result has not the contracted shape
+            from contracts.registry import SPEC_PROPS
+            out.append(("result-has-the-shape-the-contract-speaks-about", sorted(SPEC_PROPS.get(name, ())) or ["C15"], False))
     return out
